@@ -1327,3 +1327,92 @@ func TestVerifReplay(t *testing.T) {
 `
 	return "app", "daemon", src, true
 }
+
+// ---------- C15 (value notifier) ----------
+func init() { replayGens["c15"] = replayC15 }
+
+func replayC15(o *Obligation) (string, string, string, bool) {
+	if !strings.HasPrefix(o.Name, "valuenotifier.") {
+		return "", "", "", false
+	}
+	src := `package valuenotifier
+
+import (
+	"context"
+	"testing"
+	"time"
+)
+
+// oracle: a listener's Wait succeeds only if Notify for its value was called after the listener was created
+// (and before it was deregistered). All interleavings of up to 6 operations on two listeners of one value.
+func TestVerifReplay(t *testing.T) {
+	type state struct {
+		n        *Notifier[string]
+		ls       [3]*Listener
+		created  [3]bool
+		notified [3]bool // Notify was called after creation and before deregistration
+		dereg    [3]bool
+	}
+	ops := []string{"L0", "L1", "L2", "N", "D0", "D1", "D2"}
+	var run func(seq []int)
+	check := func(seq []int) {
+		s := &state{n: New[string]()}
+		desc := ""
+		for _, op := range seq {
+			name := ops[op]
+			desc += name + " "
+			switch name[0] {
+			case 'L':
+				i := int(name[1] - '0')
+				if s.created[i] {
+					return // each listener is created once
+				}
+				s.ls[i] = s.n.Listener("a")
+				s.created[i] = true
+			case 'N':
+				s.n.Notify("a")
+				for i := range s.ls {
+					if s.created[i] && !s.dereg[i] {
+						s.notified[i] = true
+					}
+				}
+			case 'D':
+				i := int(name[1] - '0')
+				if !s.created[i] || s.dereg[i] {
+					return
+				}
+				s.ls[i].Deregister()
+				s.dereg[i] = true
+			}
+		}
+		for i := range s.ls {
+			if !s.created[i] || s.dereg[i] {
+				continue
+			}
+			ctx, cancel := context.WithTimeout(context.Background(), 2*time.Millisecond)
+			err := s.ls[i].Wait(ctx)
+			cancel()
+			if err == nil && !s.notified[i] {
+				t.Fatalf("REPLAY-VIOLATION after %s: Wait of listener %d returned nil although Notify was not called since that listener was created", desc, i)
+			}
+			if err != nil && s.notified[i] {
+				t.Fatalf("REPLAY-VIOLATION after %s: Wait of listener %d returned %v although Notify was called after it was created", desc, i, err)
+			}
+		}
+	}
+	run = func(seq []int) {
+		if len(seq) > 0 {
+			check(seq)
+		}
+		if len(seq) == 5 {
+			return
+		}
+		for op := range ops {
+			run(append(append([]int{}, seq...), op))
+		}
+	}
+	run(nil)
+}
+`
+	return "runtime", "valuenotifier", src, true
+}
